@@ -153,7 +153,8 @@ def monitor(ctx, extended=False):
                 try:
                     with warnings.catch_warnings():
                         warnings.simplefilter('ignore')
-                        if ctx.rng.random() < 0.5:
+                        gave_fname = ctx.rng.random() < 0.5
+                        if gave_fname:
                             # a requested file name together with a pipeline name of any kind (plain, with blanks / separators / dots, non-ASCII); the requested name
                             # is sometimes one that cleans to nothing
                             base_pl.name = ctx.rng.choice(['p', 'p', 'Main Line', 'a/b', '../escape', 'Leitung \u00fc 3', 'x.y'])
@@ -175,6 +176,16 @@ def monitor(ctx, extended=False):
                                   {'requested': n, 'folder': how}, key='file-name')
                     if not new and os.path.isfile(path) and os.path.basename(os.path.dirname(path)) != os.path.basename(tmp):
                         os.remove(path)
+                if i % 5 == 2 and new == {bn} and gave_fname:
+                    # the same request again while the first file is still there: the second save may overwrite it; its name obeys the same rules
+                    with warnings.catch_warnings():
+                        warnings.simplefilter('ignore')
+                        path2 = os.path.abspath(S.store_to_excel(base_pl, fname=n, path=tmp))
+                    new2 = set(os.listdir(tmp)) - before - new
+                    bn2 = os.path.basename(path2)
+                    if os.path.dirname(path2) != os.path.abspath(tmp) or not SAFE.match(bn2) or not new2 <= {bn2}:
+                        ctx.violation(f'second save of the same request written as {path2!r} (new files {sorted(new2)}) for requested name {n!r}', {'requested': n, 'history': 'same request saved twice'}, key='file-name')
+                    new = new | new2
                 for f in new:
                     os.remove(os.path.join(tmp, f))
                 k += 1
